@@ -500,6 +500,14 @@ func genC13(rt *rapid.T, st *Stats) *TreeCase {
 	// quick: size thresholds on a layer PAIR - seeded/r2-m13 switches algorithm above 512 matrix cells - need that)
 	shape := pick(rt, "shape", 4)
 	w1 := 0
+	// rarely a thin giant: a spine with one to three leaves per spine node, 150..600 nodes and as many layers as the spine
+	// is long (count thresholds and iteration counts that grow with a tree's depth; see genThinGiant for the cost argument)
+	giantLegs := 0
+	if chance(rt, "giant_tree", 1, 40) {
+		shape = 4
+		n = rapid.IntRange(150, 600).Draw(rt, "n_giant")
+		giantLegs = rapid.IntRange(1, 3).Draw(rt, "giant_legs")
+	}
 	if shape == 3 {
 		n = rapid.IntRange(45, hi+30).Draw(rt, "n_wide")
 		w1 = rapid.IntRange(n/3, n/2).Draw(rt, "w1")
@@ -513,6 +521,14 @@ func genC13(rt *rapid.T, st *Stats) *TreeCase {
 			p = i - 1 - pick(rt, "back", min(i, 3))
 		case 2:
 			p = pick(rt, "parent_bushy", min(i, 4))
+		case 4:
+			// nodes 0, g+1, 2(g+1) ... form the spine; the g nodes after a spine node are its leaves
+			g := giantLegs + 1
+			if i%g == 0 {
+				p = i - g
+			} else {
+				p = i - i%g
+			}
 		default:
 			if i <= w1 {
 				p = 0
@@ -532,7 +548,7 @@ func genC13(rt *rapid.T, st *Stats) *TreeCase {
 	for i := range es {
 		es[i] = iedge{perm[es[i][0]], perm[es[i][1]]}
 	}
-	if len(es) > 1 {
+	if len(es) > 1 && !(shape == 4 && chance(rt, "as_generated", 1, 3)) {
 		es = rapid.Permutation(es).Draw(rt, "edge_order")
 	}
 	tc := &TreeCase{Opt: &Case{Edges: toEdges(es, nameScheme(rt))}}
